@@ -94,6 +94,12 @@ pub struct World {
 pub type OwnerApi = grin_wallet_api::Owner<LC, DirectNode, ExtKeychain>;
 pub type ForeignApi = grin_wallet_api::Foreign<'static, LC, DirectNode, ExtKeychain>;
 
+/// cut-off heights travel as they are; anything beyond 10^9 (u64::MAX in particular) is logged as 10^9, the
+/// model's "far future" (TLC integers are 32 bit)
+pub const TTL_FAR: u64 = 1_000_000_000;
+pub fn ttlv(t: u64) -> u64 {
+	t.min(TTL_FAR)
+}
 pub fn key_str(id: &Identifier, _mmr: &Option<u64>) -> String {
 	let p = id.to_path();
 	format!("a{}c{}", u32::from(p.path[0]), u32::from(p.path[2]))
@@ -604,7 +610,7 @@ impl World {
 					"acct": acct_str(&t.parent_key_id), "id": t.id, "ty": type_str(&t.tx_type),
 					"conf": t.confirmed, "cr": self.val(t.amount_credited), "db": self.val(t.amount_debited),
 					"fee": t.fee.map(|f| self.val(f.fee())).unwrap_or(json!(-1)),
-					"slate": slate, "ttl": t.ttl_cutoff_height.unwrap_or(0), "kern": kern,
+					"slate": slate, "ttl": ttlv(t.ttl_cutoff_height.unwrap_or(0)), "kern": kern,
 					"minh": t.kernel_lookup_min_height.map(|x| x as i64).unwrap_or(-1),
 					"nin": t.num_inputs, "nout": t.num_outputs, "proof": proof,
 				}),
@@ -922,7 +928,7 @@ impl World {
 			rec.id = Some(slate.id);
 			rec.stage.insert("S1".into(), slate.clone());
 			self.record_excess(name, &slate, "part");
-			ev["ret"] = json!({"amt": self.val(slate.amount), "fee": self.val(slate.fee_fields.fee()), "ttl": slate.ttl_cutoff_height});
+			ev["ret"] = json!({"amt": self.val(slate.amount), "fee": self.val(slate.fee_fields.fee()), "ttl": ttlv(slate.ttl_cutoff_height)});
 		}
 		ev
 	}
@@ -946,7 +952,7 @@ impl World {
 		} else {
 			self.with(w, |wi, mask| owner::tx_lock_outputs(wi, mask, &slate))
 		};
-		json!({"ev": "lock", "w": w, "sl": name, "stage": stage, "ttl": slate.ttl_cutoff_height,
+		json!({"ev": "lock", "w": w, "sl": name, "stage": stage, "ttl": ttlv(slate.ttl_cutoff_height),
 			"hasproof": slate.payment_proof.is_some(), "res": r.res(), "detail": r.detail()})
 	}
 
@@ -983,7 +989,7 @@ impl World {
 			if slate.calc_excess(&secp).is_ok() { "part" } else { "" }
 		};
 		let mut ev = json!({"ev": "receive", "w": w, "sl": name, "dest": dest, "amt": self.val(slate.amount),
-			"ttl": slate.ttl_cutoff_height, "hasproof": slate.payment_proof.is_some(), "kernin": kernin,
+			"ttl": ttlv(slate.ttl_cutoff_height), "hasproof": slate.payment_proof.is_some(), "kernin": kernin,
 			"res": r.res(), "detail": r.detail()});
 		if let Outcome::Ok(s2) = r {
 			let only_own = s2.participant_data.len() == 1;
@@ -1023,7 +1029,7 @@ impl World {
 				}
 			})
 		};
-		let mut ev = json!({"ev": "finalize", "w": w, "sl": name, "stage": stage, "rep": rep, "ttl": slate.ttl_cutoff_height,
+		let mut ev = json!({"ev": "finalize", "w": w, "sl": name, "stage": stage, "rep": rep, "ttl": ttlv(slate.ttl_cutoff_height),
 			"hasproof": slate.payment_proof.is_some(), "foreign": foreign_api, "res": r.res(), "detail": r.detail()});
 		if let Outcome::Ok(s3) = r {
 			let tx = s3.tx.clone();
@@ -1156,7 +1162,7 @@ impl World {
 			self.with(w, |wi, mask| owner::process_invoice_tx(wi, mask, &slate, args, false))
 		};
 		let mut ev = json!({"ev": "process_invoice", "w": w, "sl": name, "args": a, "amt": self.val(slate.amount),
-			"ttl": slate.ttl_cutoff_height, "res": r.res(), "detail": r.detail()});
+			"ttl": ttlv(slate.ttl_cutoff_height), "res": r.res(), "detail": r.detail()});
 		if let Outcome::Ok(s2) = r {
 			let rec = self.slates.entry(name.to_string()).or_default();
 			rec.stage.insert("I2".into(), s2.clone());
@@ -1164,7 +1170,7 @@ impl World {
 			let nrep = rec.replies.len();
 			self.record_full_excess(name);
 			ev["rep"] = json!(nrep);
-			ev["ret"] = json!({"ttl": s2.ttl_cutoff_height, "fee": self.val(s2.fee_fields.fee())});
+			ev["ret"] = json!({"ttl": ttlv(s2.ttl_cutoff_height), "fee": self.val(s2.fee_fields.fee())});
 		}
 		ev
 	}
